@@ -873,6 +873,10 @@ TABLE['bytes.decode'] = bytes_decode
 
 def bi_all_any(is_all):
     def f(E, args, kwargs, node):
+        if isinstance(args[0], VGenAbs):
+            E.lib_used.add('any() / all() of a generator expression over a sequence of unknown length: an unconstrained boolean '
+                           '(over-approximation; the element expression is assumed not to raise)')
+            return VB(z3.Bool(E.fresh('anyall')))
         items = iter_items(E, args[0]) if not (isinstance(args[0], VRef) and isinstance(E.heap[args[0].addr], HList)
                                                and E.heap[args[0].addr].base is None) else E.heap[args[0].addr].items
         for x in items:
